@@ -1,6 +1,7 @@
 package main
 
 import (
+	"go/types"
 	"strings"
 
 	"golang.org/x/tools/go/ssa"
@@ -202,6 +203,41 @@ func checkC18(c *Ctx) {
 		// rule ("the most significant digit wrapped to 0") is a full cycle only then; the shuffle permutes the
 		// combinations through separate offsets
 		c.whoMayWrite("C18.8", p.Field("twins", "Generator", "indices"), "Generator.indices", "(*hs/twins.Generator).NextScenario")
+		// C18.9 every digit of the odometer runs through 0..L-1 exactly: a digit is advanced by one and reset to 0
+		// (with a carry) exactly when it reached L = len(leadersPartitions). A reset one step late yields L+1 values per
+		// digit, i.e. repeated scenarios and more scenarios than announced.
+		{
+			fg := NewFlow(p, gen)
+			nInc, nReset := 0, 0
+			var bad []string
+			eachInstr(gen, func(in ssa.Instruction) {
+				st, ok := in.(*ssa.Store)
+				if !ok {
+					return
+				}
+				ia, ok := st.Addr.(*ssa.IndexAddr)
+				if !ok || !strings.HasSuffix(fg.K.Key(ia.X), "hs/twins.Generator.indices") {
+					return
+				}
+				elem := strings.TrimPrefix(fg.K.Key(ia), "&")
+				val := fg.K.Key(st.Val)
+				switch {
+				case val == "("+elem+" + c:1)":
+					nInc++
+				case val == "c:0":
+					nReset++
+					facts := fg.At(in)
+					if !hasCmp(facts, "<=", func(k string) bool { return strings.HasPrefix(k, "builtin len(p0->hs/twins.Generator.leadersPartitions)") }, is(elem)) {
+						bad = append(bad, p.InstrPos(in)+": reset not under len(leadersPartitions) <= "+shortVal(elem))
+					}
+				default:
+					bad = append(bad, p.InstrPos(in)+": "+shortVal(elem)+" := "+shortVal(val))
+				}
+			})
+			c.Check(nInc == 1 && nReset == 1 && len(bad) == 0, "C18.9", "NextScenario: a digit wraps exactly at len(leadersPartitions)", p.FuncPos(gen),
+				"indices[i] is advanced by one and reset to 0 exactly under len(leadersPartitions) <= indices[i]",
+				"increments: "+itoa(nInc)+", resets: "+itoa(nReset)+"; "+join(bad))
+		}
 	}
 
 	// C18.4 verdict
@@ -312,6 +348,64 @@ func checkC18(c *Ctx) {
 		c.Check(ok, "C18.5", "NodeSet.MarshalJSON: sorted before encoding", p.FuncPos(mj), "the ids collected from the map are sorted before json.Marshal (deterministic output)", "map order leaks into the JSON encoding")
 	}
 	c18FreshDecode(c)
+	// C18.10 a scenario source keeps its read position: no method of package twins with a value receiver stores into
+	// a field of that receiver (the store would change a copy; the JSON source would return its first scenario for ever)
+	{
+		var bad []string
+		n := 0
+		for _, fn := range p.ModFuncs {
+			if funcPkgPath(fn) != modPath+"/twins" || fn.Parent() != nil || fn.Blocks == nil || strings.HasSuffix(p.FuncPos(fn), "_test.go") {
+				continue
+			}
+			recv := fn.Signature.Recv()
+			if recv == nil {
+				continue
+			}
+			n++
+			if _, isPtr := recv.Type().Underlying().(*types.Pointer); isPtr {
+				continue
+			}
+			if _, isStruct := recv.Type().Underlying().(*types.Struct); !isStruct {
+				continue
+			}
+			eachInstr(fn, func(in ssa.Instruction) {
+				st, ok := in.(*ssa.Store)
+				if !ok {
+					return
+				}
+				fa, ok := st.Addr.(*ssa.FieldAddr)
+				if !ok {
+					return
+				}
+				// the receiver, spilled to a local because its address is taken
+				al, ok := fa.X.(*ssa.Alloc)
+				if !ok {
+					return
+				}
+				spilled := false
+				storedInto(al, func(v ssa.Value) bool {
+					if v == ssa.Value(fn.Params[0]) {
+						spilled = true
+					}
+					return false
+				})
+				// returned copies (builder style) are fine: the updated value leaves the method
+				returned := false
+				for _, r := range returnsOf(fn) {
+					for _, res := range r.Results {
+						if u, isLoad := res.(*ssa.UnOp); isLoad && u.X == ssa.Value(al) {
+							returned = true
+						}
+					}
+				}
+				if spilled && !returned {
+					bad = append(bad, shortName(fn)+" writes "+fieldVar(fa.X.Type(), fa.Field).Name()+" of its value receiver at "+p.InstrPos(in))
+				}
+			})
+		}
+		c.Check(n > 0 && len(bad) == 0, "C18.10", "package twins: no lost update on a value receiver", "twins",
+			itoa(n)+" methods examined; none stores into a field of a receiver passed by value", join(bad))
+	}
 }
 
 // c18FreshDecode (C18.7): scenarios read from JSON are decoded into fresh values. NodeSet's
